@@ -130,12 +130,12 @@ Proof.
 Qed.
 
 Lemma f1_deps_facts f fd w :
-  nth_error (fl_design fb) f = Some fd -> ff_window fd = Some w ->
+  nth_error (fl_design fb) f = Some fd -> ff_window fd = Some w -> isact fb f = true ->
   Forall (fun dd => sact fb dd = true) (win_deps w).
 Proof.
-  intros Efd Ew. destruct (f1_tables fb FF f fd Efd) as [Htab _]. unfold tables_ok in Htab. rewrite Ew in Htab.
+  intros Efd Ew Ha. destruct (f1_tables fb FF f fd Efd) as [Htab _]. unfold tables_ok in Htab. rewrite Ew in Htab.
   apply andb_true_iff in Htab. destruct Htab as [Hlt _]. rewrite forallb_forall in Hlt.
-  apply Forall_forall. intros dd Hdd. now apply Hlt.
+  apply Forall_forall. intros dd Hdd. apply (dep_ok_act fb f dd Ha). now apply Hlt.
 Qed.
 
 Lemma f1_tables_facts f fd w :
@@ -143,8 +143,8 @@ Lemma f1_tables_facts f fd w :
   Forall (fun dd => sact fb dd = true) (win_deps w) /\
   (forall lv entry, In lv (ff_levels fd) -> In entry (lv_accepts lv) -> entry_ok fb (win_deps w) entry = true).
 Proof.
-  intros Efd Ew Hs. split; [exact (f1_deps_facts f fd w Efd Ew)|].
-  apply (sact_split fb) in Hs. destruct Hs as [Ha Hcx]. rewrite (is_complex_at fb f fd Efd) in Hcx.
+  intros Efd Ew Hs. apply (sact_split fb) in Hs. destruct Hs as [Ha Hcx].
+  split; [exact (f1_deps_facts f fd w Efd Ew Ha)|]. rewrite (is_complex_at fb f fd Efd) in Hcx.
   destruct (f1_tables fb FF f fd Efd) as [Htab _]. unfold tables_ok in Htab. rewrite Ew in Htab.
   apply andb_true_iff in Htab. destruct Htab as [_ Hent]. rewrite Ha, Hcx in Hent. cbn [negb orb] in Hent.
   rewrite forallb_forall in Hent.
@@ -180,7 +180,8 @@ Lemma cargs_group q f fd w t :
   cargs q (win_deps w) ((t / sustain_of fb f) * sustain_of fb f) = cargs q (win_deps w) t.
 Proof.
   intros Hg Efd Ew Hs Ht. unfold cargs. apply map_ext_in. intros d Hd. f_equal.
-  pose proof (proj1 (Forall_forall _ _) (f1_deps_facts f fd w Efd Ew) d Hd) as Hds. cbv beta in Hds.
+  destruct (sact_lappl fb HF1 f 0 Hs) as [Haf _].
+  pose proof (proj1 (Forall_forall _ _) (f1_deps_facts f fd w Efd Ew Haf) d Hd) as Hds. cbv beta in Hds.
   destruct (sact_lappl fb HF1 d t Hds) as [Hda _].
   pose proof (f1_sustain_deps fb FF f fd w Efd Ew Hs d Hd) as Hdiv.
   pose proof (f1_sustain_pos fb FF f) as Pf. pose proof (f1_sustain_pos fb FF d) as Pd.
@@ -441,17 +442,12 @@ Proof.
     + now apply negb_true_iff.
 Qed.
 
-(** on a one-hot grid the windows over the sequence and over the decoded act rows coincide *)
-Lemma onehot_window_args s q f fd w t :
-  onehot fb s q -> ff_window fd = Some w -> sustain_of fb f = 1 ->
-  Forall (fun d => sact fb d = true) (win_deps w) -> t < T fb ->
-  window_args q (code_factor fb f fd) (dwin fd w) t = window_args (dec_act fb s) (code_factor fb f fd) (dwin fd w) t.
+(** on a one-hot grid the implied cell computed from the sequence itself is the implied cell of the grid *)
+Lemma onehot_impl_cell s q f t :
+  onehot fb s q -> f < nf fb -> isact fb f = false -> t < T fb -> impl_cell fb q t f = cell_impl fb s t f.
 Proof.
-  intros Ho Ew Hsu Hd Ht. apply (window_ext_su1 fb HF1 HT q (dec_act fb s) f fd w t Hsu Ew).
-  intros d t' Hin Ht'. pose proof (proj1 (Forall_forall _ _) Hd d Hin) as Hds. cbv beta in Hds.
-  destruct (sact_lappl fb HF1 d t' Hds) as [Hda _].
-  rewrite (dec_act_cell fb s t' d ltac:(lia) (f1_act_lt fb HF1 d Hda)).
-  apply (onehot_cell_act fb s q t' d Ho ltac:(lia) Hda).
+  intros Ho Hf Ha Ht. apply (cell_impl_char fb HF1 HT s q t f Hf Ha Ht).
+  intros d t' Hd Ht'. apply (onehot_cell fb s q t' d Ho); [lia|exact (dep_lt fb HF1 HT f d Hf Ha Hd)].
 Qed.
 
 (** * Factors of act_design with a complex window *)
@@ -505,7 +501,7 @@ Lemma cx_su : sustain_of fb f = 1.
 Proof. apply (f1_sustain_cx fb HF1 f Ha). now rewrite (is_complex_at fb f fd Efd). Qed.
 
 Lemma cx_deps : Forall (fun d => sact fb d = true) (win_deps w).
-Proof. exact (f1_deps_facts f fd w Efd Ew). Qed.
+Proof. exact (f1_deps_facts f fd w Efd Ew Ha). Qed.
 
 Lemma cx_window_in q n : shape q -> n < T fb -> lappl fb f n = true ->
   In (window_args q (code_factor fb f fd) (dwin fd w) n) (all_args fb w).
@@ -643,16 +639,15 @@ Proof.
       assert (fd' = fd) by congruence. subst fd'.
       pose proof (impl_sustain fb HF1 HT f Hf Hact) as Hsu.
       apply (factor_ok_impl q f fd w Efd Ew Hsu (Hr f Hf)). intros t Ht.
-      rewrite (Himp t f Ht Hf Hact). unfold cell_impl, factor_at. rewrite Efd, Ew.
+      rewrite (Himp t f Ht Hf Hact), <- (onehot_impl_cell s q f t Ho Hf Hact Ht).
+      pose proof (pcons_cell_impl fb HF1 HT s (onehot_pcons fb s q Ho) f t Ht Hf Hact) as P.
+      rewrite <- (onehot_impl_cell s q f t Ho Hf Hact Ht) in P.
+      unfold appl, impl_cell, factor_at in P |- *. rewrite Efd, Ew in P |- *.
       destruct (applies (code_factor fb f fd) t) eqn:Hap; [|reflexivity].
-      rewrite <- (onehot_window_args s q f fd w t Ho Ew Hsu Hdeps Ht).
       destruct (find (fun l => accepts (dwin fd w) l (window_args q (code_factor fb f fd) (dwin fd w) t)) (seq 0 (nlevels fb f)))
         as [l|] eqn:El.
       * destruct (find_in_range fb HF1 HT _ _ _ El) as [A B]. now split.
-      * exfalso. pose proof (pcons_cell_impl fb HF1 HT s t f (onehot_pcons fb s q Ho) Ht Hf Hact) as P.
-        unfold appl, cell_impl, factor_at in P. rewrite Efd, Ew, Hap in P.
-        rewrite <- (onehot_window_args s q f fd w t Ho Ew Hsu Hdeps Ht), El in P.
-        destruct P as (l & _ & Q). discriminate.
+      * exfalso. destruct P as (l & _ & Q). discriminate.
   - intros H d deps f Hin. unfold Pderiv_any. destruct (is_complex fb f) eqn:Hcf.
     + destruct (derivc_formulas_eq fb HF1 HT d deps f Hin Hcf) as (fd & w & l & lv & Efd & Ew & Elv & Hf & Hcx & Hl & _ & _ & Hent & _ & EF).
       unfold Pderivc. rewrite EF. apply (pderivc_char f fd w Efd Ew Hf Hcx s q l lv Ho Hl Hent).
